@@ -273,5 +273,9 @@ def run(check, ctx):
     # HMAC key preparation is part of PBKDF2/HKDF's specification (RFC 2104)
     from .c03_extra import hmac_rows
     hmac_rows(check, repo, prop="C12")
-    check.undecided.append("derived bytes of the native fast paths (PBKDF2 HMAC assist, scrypt "
-                           "ROMix, EKSBlowfish); the hash and MAC functions (C03)")
+    # the native PBKDF2 inner loops with an uninterpreted hash
+    from . import c_pbkdf2
+    c_pbkdf2.pbkdf2_tables(check, ctx)
+    check.floor("K-sym", 6)
+    check.undecided.append("derived bytes of the other native fast paths (scrypt ROMix, EKSBlowfish); "
+                           "the hash and MAC functions themselves (C03)")
